@@ -73,7 +73,6 @@ pub fn dash_path(path: &Path, dash_array: &[f32], mut dash_offset: f32) -> Path 
             PathOp::MoveTo(pt) => {
                 cur_pt = Some(pt);
                 start_point = Some(pt);
-                dashed.move_to(pt.x, pt.y);
 
                 // flush the previous initial segment
                 if initial_segment.len() > 0 {
@@ -82,6 +81,9 @@ pub fn dash_path(path: &Path, dash_array: &[f32], mut dash_offset: f32) -> Path 
                         dashed.line_to(initial_segment[i].x, initial_segment[i].y);
                     }
                 }
+                // start the new subpath only now: a Close that follows directly (a subpath that is a
+                // single point) must not close the outline that was just flushed
+                dashed.move_to(pt.x, pt.y);
                 is_first_segment = true;
                 initial_segment = Vec::new();
                 first_dash = true;
